@@ -93,6 +93,7 @@ type hOp struct {
 	Filt   string   `json:"f,omitempty"`  // fault: "" p i (key class the fault applies to)
 	Txt    int      `json:"tx,omitempty"` // fault / conc with gf: which error reply the failing commands get (index into cache.C06Texts: ERR, WRONGTYPE, LOADING, BUSY, NOAUTH, MOVED, ASK, CLUSTERDOWN, READONLY, OOM, TRYAGAIN, MISCONF, NOPERM, max clients, MASTERDOWN)
 	WT     bool     `json:"wt,omitempty"` // garbage: the foreign writer leaves a value of ANOTHER TYPE (a hash) under the key: the server itself answers GET with WRONGTYPE
+	Res    int      `json:"rs,omitempty"` // write / delrow: which sql.Result the statement hands back (0 nil; auto-increment insert id>0 / 1 row; id>0 / 2 rows; id 0 / 1 row; 0 / 0; LastInsertId fails; RowsAffected fails; both fail; id -1)
 	XF     bool     `json:"xf,omitempty"` // write: the database statement fails (the Exec callback returns an error, the database is unchanged)
 	Bad    bool     `json:"bad,omitempty"` // setcache: a value that JSON cannot encode (+Inf): unspecified, run for panics only
 	Ws     []hW     `json:"ws,omitempty"` // cwrite: writers running at the same time (no reader runs meanwhile)
@@ -117,7 +118,9 @@ type hW struct {
 type hInst struct {
 	HasE  bool  `json:"he,omitempty"`
 	E     int   `json:"e,omitempty"`   // seconds
-	ENs   int64 `json:"ens,omitempty"` // if non-zero: the expiry in NANOseconds instead of E (1 ns .. MaxInt64, also <= 0)
+	ENs   int64 `json:"ens,omitempty"` // if non-zero: the expiry in NANOseconds instead of E (1 ns .. MaxInt64; negative: -1 ns, -1 s, MinInt64 = "not set", the default applies)
+	E0    bool  `json:"e0,omitempty"`  // the option is passed with the value 0 (= "not set")
+	NF0   bool  `json:"nf0,omitempty"` // same for the not-found expiry
 	HasNF bool  `json:"hn,omitempty"`
 	NF    int   `json:"nf,omitempty"`   // seconds
 	NFNs  int64 `json:"nfns,omitempty"` // same for the not-found expiry
@@ -134,8 +137,11 @@ func (i hInst) expireNs() (ns int64, judged bool) {
 	switch {
 	case !i.HasE:
 		return 7 * 24 * 3600 * 1e9, true
+	case i.E0 || i.ENs < 0:
+		// an option value <= 0 means "not set": the documented default applies
+		return 7 * 24 * 3600 * 1e9, true
 	case i.ENs != 0:
-		return i.ENs, i.ENs > 0 && i.ENs <= c06HundredYears
+		return i.ENs, i.ENs <= c06HundredYears
 	}
 	return int64(i.E) * 1e9, i.E > 0
 }
@@ -144,13 +150,18 @@ func (i hInst) nfExpireNs() (ns int64, judged bool) {
 	switch {
 	case !i.HasNF:
 		return 60 * 1e9, true
+	case i.NF0 || i.NFNs < 0:
+		return 60 * 1e9, true
 	case i.NFNs != 0:
-		return i.NFNs, i.NFNs > 0 && i.NFNs <= c06HundredYears
+		return i.NFNs, i.NFNs <= c06HundredYears
 	}
 	return int64(i.NF) * 1e9, i.NF > 0
 }
 
-func (i hInst) duration(ns int64, secs int) time.Duration {
+func (i hInst) duration(zero bool, ns int64, secs int) time.Duration {
+	if zero {
+		return 0
+	}
 	if ns != 0 {
 		return time.Duration(ns)
 	}
@@ -677,7 +688,10 @@ func (r *hRun) absorb(fromIndexRead, background bool) (b hBatch, dels []string) 
 						r.classes["ttl-expiry-over-30-days"] = true
 					}
 				} else {
-					r.classes["ttl-unspecified-expiry"] = true
+					r.classes["ttl-unspecified-expiry"] = true // above 100 years (at MaxInt64 the unchanged tree sends no lifetime at all: seconds * 1e9 overflows)
+				}
+				if in := r.c.Insts[r.cur]; (e.Val == "*" && (in.NF0 || in.NFNs < 0)) || (e.Val != "*" && (in.E0 || in.ENs < 0)) {
+					r.classes["ttl-nonpositive-option-means-default"] = true
 				}
 				if e.Secs <= 0 {
 					continue // refused by the server: nothing stored
@@ -1059,6 +1073,22 @@ func (r *hRun) markInvalidated(keys []string) {
 	}
 }
 
+// c06Result is the sql.Result a statement hands back.
+type c06Result struct {
+	id, aff       int64
+	idErr, affErr error
+}
+
+func (x c06Result) LastInsertId() (int64, error) { return x.id, x.idErr }
+func (x c06Result) RowsAffected() (int64, error) { return x.aff, x.affErr }
+
+var c06Results = []sql.Result{nil,
+	c06Result{id: 7, aff: 1}, c06Result{id: 7, aff: 2}, c06Result{id: 0, aff: 1}, c06Result{},
+	c06Result{idErr: errC06DB{"LastInsertId is not supported by this driver"}, aff: 1},
+	c06Result{id: 7, affErr: errC06DB{"RowsAffected is not supported by this driver"}},
+	c06Result{idErr: errC06DB{"no id"}, affErr: errC06DB{"no count"}},
+	c06Result{id: -1, aff: 1}, c06Result{id: 1 << 40, aff: 1}}
+
 // exec runs a write on instance inst: the database statement, then the removal
 // of the named keys - through CachedConn.Exec / ExecCtx, or, on an instance whose
 // cache.Cache the caller holds and without a context, statement then Cache.Del.
@@ -1188,7 +1218,13 @@ func (r *hRun) doWrite(what string, o hOp, del bool) {
 			r.db[o.ID] = row
 		}
 		r.mu.Unlock()
-		return nil, nil
+		if o.Res != 0 {
+			r.classes["statement-result-shapes"] = true
+		}
+		if o.Res < 0 {
+			return nil, nil
+		}
+		return c06Results[o.Res%len(c06Results)], nil
 	}
 	err := r.exec(r.cur, r.ctx, body, keys...)
 	b, dels := r.absorb(false, false)
@@ -1880,7 +1916,7 @@ func c06HistInterp(t *testing.T, c hCase) (v kit.Verdict) {
 		}
 	}
 	for _, in := range c.Insts {
-		if (in.HasE && in.ENs == 0 && in.E < 1) || (in.HasNF && in.NFNs == 0 && in.NF < 1) {
+		if (in.HasE && in.ENs == 0 && !in.E0 && in.E < 1) || (in.HasNF && in.NFNs == 0 && !in.NF0 && in.NF < 1) {
 			return kit.Verdict{Excluded: true}
 		}
 	}
@@ -1939,10 +1975,10 @@ func c06HistInterp(t *testing.T, c hCase) (v kit.Verdict) {
 		for ii, in := range c.Insts {
 			var opts []cache.Option
 			if in.HasE {
-				opts = append(opts, cache.WithExpire(in.duration(in.ENs, in.E)))
+				opts = append(opts, cache.WithExpire(in.duration(in.E0, in.ENs, in.E)))
 			}
 			if in.HasNF {
-				opts = append(opts, cache.WithNotFoundExpire(in.duration(in.NFNs, in.NF)))
+				opts = append(opts, cache.WithNotFoundExpire(in.duration(in.NF0, in.NFNs, in.NF)))
 			}
 			if !in.HasE || !in.HasNF {
 				r.classes["default-expiry-option-omitted"] = true
@@ -2214,14 +2250,16 @@ func c06HistGen(rt *rapid.T) hCase {
 			if rapid.IntRange(0, 3).Draw(rt, "oddexpire") == 0 {
 				// magnitudes: sub-second, not whole seconds, the defaults +-1 ns, hours .. 100 years, out of range
 				in.ENs = rapid.SampledFrom([]int64{1, 1e6, 999e6, 1e9, 1e9 + 1, 1001e6, 1500e6, 1 << 31, 2500e6, 60e9 - 1, 60e9 + 1, 3600e9,
-					7*24*3600e9 - 1, 7*24*3600e9 + 1, 30 * 24 * 3600e9, c06HundredYears, math.MaxInt64, -1}).Draw(rt, "expirens")
+					7*24*3600e9 - 1, 7*24*3600e9 + 1, 30 * 24 * 3600e9, c06HundredYears, math.MaxInt64, -1, -1e9, math.MinInt64, 0}).Draw(rt, "expirens")
+				in.E0 = in.ENs == 0
 			}
 		}
 		if in.HasNF {
 			in.NF = rapid.IntRange(2, 40).Draw(rt, "nfexpire")
 			if rapid.IntRange(0, 3).Draw(rt, "oddnfexpire") == 0 {
 				in.NFNs = rapid.SampledFrom([]int64{1, 1e6, 999e6, 1e9, 1e9 + 1, 1500e6, 1 << 31, 60e9 - 1, 60e9 + 1, 3600e9, 30 * 24 * 3600e9,
-					c06HundredYears, math.MaxInt64, -1}).Draw(rt, "nfexpirens")
+					c06HundredYears, math.MaxInt64, -1, -1e9, math.MinInt64, 0}).Draw(rt, "nfexpirens")
+				in.NF0 = in.NFNs == 0
 			}
 		}
 		if i > 0 {
@@ -2345,6 +2383,9 @@ func c06HistGen(rt *rapid.T) hCase {
 				break
 			}
 			o.During = rapid.IntRange(0, 3).Draw(rt, "during") == 0
+			if rapid.Bool().Draw(rt, "hasresult") {
+				o.Res = rapid.IntRange(1, len(c06Results)-1).Draw(rt, "result")
+			}
 			o.Pay = rapid.IntRange(0, 349).Draw(rt, "payload")
 			if rapid.IntRange(0, 11).Draw(rt, "longstring") == 0 {
 				// index into c06Lens (8 wraps to 255 B); 7 = 1 MiB is kept rare, it costs milliseconds per read
@@ -2396,6 +2437,9 @@ func c06HistGen(rt *rapid.T) hCase {
 			}
 			o.ID = rapid.SampledFrom(ids).Draw(rt, "id")
 			o.During = rapid.IntRange(0, 3).Draw(rt, "during") == 0
+			if rapid.Bool().Draw(rt, "hasresult") {
+				o.Res = rapid.IntRange(1, len(c06Results)-1).Draw(rt, "result")
+			}
 			delete(rows, o.ID)
 		case "cwrite":
 			ids := existing()
